@@ -4,6 +4,8 @@ package trace
 
 import (
 	"html"
+	"io"
+	"strings"
 	"net/http"
 	"net/http/httputil"
 	"net/url"
@@ -35,8 +37,16 @@ func (w *zzW) Write(b []byte) (int, error) {
 
 // ZZC18Helper(n): the bundled Trace helper on a request whose dump is arbitrary.
 func ZZC18Helper(n int) {
-	withBody := n == 1
+	withBody := n >= 1
 	r := &http.Request{Method: "TRACE", URL: &url.URL{Path: "/t"}, Header: http.Header{"X-A": {"<&>"}}, Host: "h", Proto: "HTTP/1.1", ProtoMajor: 1, ProtoMinor: 1}
+	if n >= 1 {
+		// a body whose length is not declared (chunked / streamed)
+		r.Body = io.NopCloser(strings.NewReader("B<o>dy"))
+		r.ContentLength = -1
+	}
+	if n == 2 {
+		r.ContentLength = 6
+	}
 	want, werr := httputil.DumpRequest(r, withBody)
 	w := &zzW{h: http.Header{}}
 	err := Trace(w, r, withBody)
